@@ -42,6 +42,15 @@ PATHS = {
     "def_destr": "do def [p, q] = s; [p, q] end",
     "assign_destr": "do def p = 0; def q = 0; [p, q] = s; [p, q] end",
     "for_destr": "do def r = []; for [p, q] in [s] do append(r, [p, q]); end; r end",
+    "for_destr_pad": "do def r = []; for [p, q, u, v, w, z] in [s, t] do "
+                     "append(r, [p, q, u, v, w, z]); end; r end",
+    "def_destr_pad": "do def [p, q, u, v, w, z] = s; [p, q, u, v, w, z] end",
+    "assign_destr_pad": "do def p = 0; def q = 0; def u = 0; def v = 0; "
+                        "def w = 0; [p, q, u, v, w] = s; [p, q, u, v, w] end",
+    "set_in_set_for": "do def r = []; for x in <<s, t, <<'e'>> >> do "
+                      "append(r, x); end; r end",
+    "set_of_sets_list": "list(<<s, t, <<'a'>>, <<'e', 'b'>> >>)",
+    "sets_sorted": "sorted([t, s, <<'e'>>, <<'b', 'a'>>])",
     "plus": "s + <<'e'>>", "plus_list": "s + ['e', 'a']",
     "minus": "s - <<'a'>>", "list_plus": "['z'] + s",
     "list_minus": "['a', 'z', 'b'] - s", "elem_plus": "'e' + s",
